@@ -2,11 +2,14 @@
 (* Trace validation for C13.  A trace is the concatenation of runs; every run is
 
      {"e":"reset","tool":T,"class":"ro"|"rw","state":"<profile>/<variant>","inv":"<invocation id>"}
-     the iotrace.so events of the target (obj = 0) and of the auxiliary files of the command line (obj >= 1: the -z
-     undo file, the undo log replayed by e2undo; protocol in ToolRunZ.tla), in order (harness/iotrace.c), each with obj:
+     the iotrace.so events of the target set (obj = 0: the device of the command line; obj = 3: the external journal
+     device the invocation names or reaches) and of the auxiliary files of the command line (obj = 1: the -z undo file,
+     obj = 2: the undo log replayed by e2undo; object classes and protocol in ToolRunZ.tla), in order (harness/iotrace.c),
+     each with obj:
         open {fd, acc, creat, trunc} | pwrite / write / pwritev {fd, off_hi, off_lo, len} | ftruncate {fd, off_hi, off_lo}
         | fallocate {fd, off_hi, off_lo, len, x = mode} | fsync {fd} | close {fd}
-     {"e":"exit","code":c,"sig":s,"digest_equal":0|1}        written by checks/c13.py (sha256 before = after)
+     {"e":"exit","code":c,"sig":s,"digest_equal":0|1,"jdigest_equal":0|1}   written by checks/c13.py (sha256 before = after,
+                                                              of the command-line device and of the external journal device)
 
    Every line must be the ToolRunZ step of that system call on that object; write-class calls on an auxiliary file are
    steps of every class and never touch the device.  In class "ro" no effective write-class step is enabled,
@@ -22,9 +25,12 @@ Tr == ndJsonDeserialize(IOEnv.TRACE)
 
 IsEvent(e) == l <= Len(Tr) /\ Tr[l].e = e /\ l' = l + 1
 Ended == pc \in {"idle", "exited", "killed"}
-\* obj = 0: the descriptor is one of the TARGET; obj >= 1: of an auxiliary file named on the command line (the -z undo
-\* file, the undo log replayed by e2undo) -- iotrace.so reports which path of VERIF_IOTRACE_TARGET matched
-OnTarget == Tr[l].obj = 0
+\* obj: iotrace.so reports which path of VERIF_IOTRACE_TARGET matched; ToolRunZ!ObjClass says whether that object belongs
+\* to the TARGET set or is an auxiliary file of the command line (the -z undo file, the undo log replayed by e2undo)
+\* round 3: the target is the SET ToolRunZ!TargetObjs (0: the device of the command line, 3: the external journal device
+\* the invocation names with -j / logdump -f or reaches through s_journal_uuid); an object of neither class is no step
+OnTarget == Tr[l].obj \in TargetObjs
+KnownObj == ObjClass(Tr[l].obj) # "unknown"
 
 TReset == /\ IsEvent("reset") /\ Ended
           /\ Tr[l].tool \in ToolNames /\ Tr[l].class \in Classes
@@ -34,6 +40,7 @@ TReset == /\ IsEvent("reset") /\ Ended
           /\ auxopen' = {} /\ auxmod' = FALSE
 
 TOpen == /\ IsEvent("open")
+         /\ KnownObj
          /\ IF OnTarget THEN TOpenZ(Tr[l].fd, Tr[l].acc, Tr[l].trunc = 1 \/ Tr[l].creat = 1)
                         ELSE AuxOpen(Tr[l].fd, Tr[l].acc, Tr[l].trunc = 1 \/ Tr[l].creat = 1)
 
@@ -41,16 +48,20 @@ TOpen == /\ IsEvent("open")
 WrEvent == {"pwrite", "write", "pwritev"}
 AuxWr   == AuxWrite(Tr[l].fd) \/ AuxRefused(Tr[l].fd)
 TWrite  == /\ l <= Len(Tr) /\ Tr[l].e \in WrEvent /\ l' = l + 1
+           /\ KnownObj
            /\ IF OnTarget THEN TWriteZ(Tr[l].fd, Tr[l].off_lo, Tr[l].len) \/ TRefusedZ(Tr[l].fd) ELSE AuxWr
 TTrunc  == /\ IsEvent("ftruncate")
+           /\ KnownObj
            /\ IF OnTarget THEN TTruncZ(Tr[l].fd, Tr[l].off_lo) \/ TRefusedZ(Tr[l].fd) ELSE AuxWr
 TFalloc == /\ IsEvent("fallocate")
+           /\ KnownObj
            /\ IF OnTarget THEN TFallocZ(Tr[l].fd, Tr[l].x, Tr[l].off_lo, Tr[l].len) \/ TRefusedZ(Tr[l].fd) ELSE AuxWr
 TFsync  == IsEvent("fsync") /\ IF OnTarget THEN TFsyncZ(Tr[l].fd) ELSE AuxFsync(Tr[l].fd)
 TClose  == IsEvent("close") /\ IF OnTarget THEN TCloseZ(Tr[l].fd) ELSE AuxClose(Tr[l].fd)
 
 \* the digest may only differ if the model saw an effective write-class call ON THE TARGET
-DigestAgrees == Tr[l].digest_equal = 0 => modified
+\* (digest_equal: sha256 of object 0; jdigest_equal: sha256 of object 3, 1 when the run has no journal device)
+DigestAgrees == (Tr[l].digest_equal = 0 \/ Tr[l].jdigest_equal = 0) => modified
 TExit   == IsEvent("exit") /\ Tr[l].sig = 0 /\ ExitAnyZ(Tr[l].code) /\ DigestAgrees
 TKilled == IsEvent("exit") /\ Tr[l].sig # 0 /\ KilledAnyZ(Tr[l].sig) /\ DigestAgrees
 
